@@ -84,9 +84,12 @@ class Expr:
     __hash__ = object.__hash__
 
     def is_between(self, lo, hi, closed="both"):
-        if closed != "both":
-            raise Unsupported("is_between(closed=...)")
-        return self.ge(lo).and_(self.le(hi))
+        # polars: closed in {"both", "left", "right", "none"} names the side(s) of the interval that are included
+        if closed not in ("both", "left", "right", "none"):
+            raise Unsupported(f"is_between(closed={closed!r})")
+        lo_ok = self.ge(lo) if closed in ("both", "left") else self.gt(lo)
+        hi_ok = self.le(hi) if closed in ("both", "right") else self.lt(hi)
+        return lo_ok.and_(hi_ok)
 
     def is_in(self, values):
         if isinstance(values, SymSet):
